@@ -25,7 +25,7 @@ import traceback
 VERIF = os.path.dirname(os.path.dirname(os.path.abspath(__file__)))
 REPO = os.environ.get("VERIF_REPO", "/repo")
 LEAN_DIR = os.path.join(VERIF, "lean")
-DRIVER_BIN = os.path.join(LEAN_DIR, ".lake", "build", "bin", "driver")
+BIN_DIR = os.path.join(LEAN_DIR, ".lake", "build", "bin")
 GUARD = "PEDAL_EDU_PEDAL_VERIF"
 
 ALLOWED_AXIOMS = {"propext", "Classical.choice", "Quot.sound"}
@@ -211,15 +211,17 @@ def audit_axioms(proof_module, theorems, timeout=600):
 class Driver:
     """Batch line protocol: write all requests, read all answers."""
 
-    def __init__(self):
-        self.available = os.path.exists(DRIVER_BIN)
+    def __init__(self, exe):
+        self.exe = exe
+        self.path = os.path.join(BIN_DIR, exe)
+        self.available = os.path.exists(self.path)
 
     def ask(self, lines, timeout=900):
         if not lines:
             return []
         data = "\n".join(lines) + "\n"
         assert all("\n" not in l for l in lines)
-        p = subprocess.run([DRIVER_BIN], input=data, capture_output=True, text=True, timeout=timeout)
+        p = subprocess.run([self.path], input=data, capture_output=True, text=True, timeout=timeout)
         if p.returncode != 0:
             raise RuntimeError("driver failed: " + p.stderr[-2000:])
         out = p.stdout.split("\n")
@@ -310,7 +312,7 @@ def get_seed():
         return 0
 
 
-def run_check(prop, *, proof_modules, theorems, translate=None, correspond=None, search=None,
+def run_check(prop, *, proof_modules, theorems, driver_exe, translate=None, correspond=None, search=None,
               replay=None, refuted_full=None, unproved_full=None, model_notes=None, trusted_extra=None,
               level="proof", leanchecker_modules=None):
     """
@@ -350,13 +352,17 @@ def run_check(prop, *, proof_modules, theorems, translate=None, correspond=None,
     discharged = 0
     build_log = ""
     if not args.no_lean:
-        targets = list(proof_modules) + ["driver"]
-        if tier == "thorough":
-            pass
-        ok, build_log = lake_build(targets)
+        # the driver first: models may be fine while a proof is not
+        ok_drv, drv_log = lake_build([driver_exe])
+        if not ok_drv:
+            broken.append(("model-build", "lake build %s failed" % driver_exe))
+            info["driver_build_log_tail"] = drv_log[-3000:]
+            try:
+                os.unlink(os.path.join(BIN_DIR, driver_exe))
+            except OSError:
+                pass
+        ok, build_log = lake_build(list(proof_modules))
         if not ok:
-            # find out whether the driver at least builds (models may be fine while a proof is not)
-            ok_drv, _ = lake_build(["driver"])
             failing = sorted(set(re.findall(r"error: (\S+?\.lean):\d+", build_log)))
             broken.append(("proof-build", "lake build failed in: %s" % (", ".join(failing) or "?")))
             info["build_log_tail"] = build_log[-3000:]
@@ -385,7 +391,7 @@ def run_check(prop, *, proof_modules, theorems, translate=None, correspond=None,
 
     # 3. correspond
     corr = CorrResult()
-    driver = Driver()
+    driver = Driver(driver_exe)
     if correspond is not None:
         if not driver.available:
             corr.skipped = "driver binary missing (model does not build)"
